@@ -9,9 +9,9 @@
 (* with the real crates.                                                    *)
 EXTENDS LiquidInterp, Json
 
-CONSTANTS MaxPieces, MaxPhrase, Hosts, EmitAll
+CONSTANTS MaxPieces, MaxPhrase, MaxTmpl, Hosts, EmitAll
 
-A == INSTANCE LiquidArgs
+A == INSTANCE LiquidParse
 
 Txt(c)  == [t |-> "text", c |-> c]
 Out(x)  == [t |-> "out", x |-> x]
@@ -25,28 +25,46 @@ Generic == {"a", "b", "i", "x", "in", "limit", "reversed", "with", "as", "for", 
 
 \* host = [name, pre, post, at (position of the variable element in pre \o inner \o post), vocab]
 Host(n, pre, post, at, vocab) == [n |-> n, pre |-> pre, post |-> post, at |-> at, vocab |-> vocab]
+TmplVocab ==
+  {"x", " ", " \n ", "{{a}}", "{{- a -}}", "{{i}}", "{{c}}", "{{forloop.index}}", "{{nosuch}}",
+   "{% if a %}", "{% if nosuch %}", "{%- if a == 3 -%}", "{% elsif i %}", "{% else %}", "{% endif %}", "{% unless nosuch %}", "{% endunless %}",
+   "{% for i in (1..2) %}", "{% for i in arr limit:1 %}", "{% endfor %}", "{% break %}", "{% continue %}",
+   "{% case a %}", "{% when 3 %}", "{% when 1, 2 %}", "{% endcase %}", "{% capture c %}", "{% endcapture %}",
+   "{% assign a = 7 %}", "{% increment c %}", "{% cycle 'u', 'v' %}", "{% ifchanged %}", "{% endifchanged %}",
+   "{% tablerow i in (1..2) cols:1 %}", "{% endtablerow %}", "{% include 'p' %}",
+   "{% endif x %}", "{% else x %}", "{% bogus %}", "{%", "{{", "{% comment %}", "{% endcomment %}"}
 HostTable ==
-  { Host("out", "{{", "}}", 1, {"a", "b.k", "arr", "[0]", "[-1]", "[i]", "[", "]", "1", "-1", ".", "first", "size", " ", "|", "upcase", "append", ":", "'s'", ",", "nil", "i", "b['k']", "[ 'k' ]", "x"}),
-    Host("assign", "{% assign ", "%}{{v}}", 1, {"v", " ", "=", "a", "b.k", "1", "'s'", "|", "size", "append", ":", ",", "true", "v=a", "v = ", "nil", "arr[1]", "x"}),
+  { Host("out", "{{", "}}", 1, {"a", "b.k", "arr", "[0]", "[-1]", "[i]", "[", "]", "1", "-1", ".", "first", "size", " ", "|", "upcase", "append", ":", "'s'", ",", "nil", "i", "b['k']", "[ 'k' ]", "x", Big20, "1|plus:", "arr[0][", "a|slice:0,"}),
+    Host("assign", "{% assign ", "%}{{v}}", 1, {"v", " ", "=", "a", "b.k", "1", "'s'", "|", "size", "append", ":", ",", "true", "v=a", "v = ", "nil", "arr[1]", "x", Big20, "v=1|plus:", "v=arr[0]["}),
     Host("if", "{% if ", "%}T{% else %}F{% endif %}", 1,
          {"a", "b.k", "x", "1", "3", "'s'", "nil", "true", " ", "==", "<", ">=", "<>", " contains ", " and ", " or ", "=", "empty", "|",
-          "a==3", "x==1", "a<1", "arr contains 5", "b.k>=5"}),
+          "a==3", "x==1", "a<1", "arr contains 5", "b.k>=5", Big20, "1==", "arr[0]["}),
     Host("unless", "{% unless ", "%}T{% endunless %}", 1, {"a", " ", "==", "3", " or ", " and ", "x", "nil", "a==3", "x==1"}),
     Host("for", "{% for ", "%}{{i}},{% endfor %}", 1,
          {"i in (1..3)", "i in arr", "q in x", "i in (1..a)", " limit:2", " offset:1", " reversed", " cols:2", " limit", " offset", ":", "1", "a", " ", ",",
-          "i", " in ", "(1..3)", "arr", "x"}),
+          "i", " in ", "(1..3)", "arr", "x", "i in (1..", "i in (", "..1)", ")", Big20, " limit:"}),
     Host("tablerow", "{% tablerow ", "%}{{i}}{% endtablerow %}", 1,
          {"i in (1..3)", "i in arr", " limit:2", " offset:1", " reversed", " cols:2", " cols", ":", "2", " ", ",", "i", " in ", "arr"}),
-    Host("when", "{% case 1 %}{% when ", "%}W{% else %}E{% endcase %}", 13, {"1", "2", "a", "x", " or ", ",", " ", "'s'", " and ", "nil", "|", "2,1", "2 or 1"}),
-    Host("case", "{% case ", "%}{% when 3 %}W{% else %}E{% endcase %}", 1, {"a", "3", " ", "b.k", "x", ",", "|", "size", "1", "=="}),
-    Host("cycle", "{% for q in (1..3) %}{% cycle ", "%}{% endfor %}", 22, {"'g'", "g", ":", ",", " ", "1", "2", "a", "x", "nil", "'s'", "|", "'g': ", "1,2", ",3", "1 2"}),
-    Host("include", "{% include ", "%}", 1, {"'p'", "s", " ", " a:1", " i:2", " a:x", ",", " b", "x", ":", "1", "|", "'q'", "a"}),
+    Host("when", "{% case 1 %}{% when ", "%}W{% else %}E{% endcase %}", 13, {"1", "2", "a", "x", " or ", ",", " ", "'s'", " and ", "nil", "|", "2,1", "2 or 1", Big20, "1,"}),
+    Host("case", "{% case ", "%}{% when 3 %}W{% else %}E{% endcase %}", 1, {"a", "3", " ", "b.k", "x", ",", "|", "size", "1", "==", Big20, "arr[0]["}),
+    Host("cycle", "{% for q in (1..3) %}{% cycle ", "%}{% endfor %}", 22, {"'g'", "g", ":", ",", " ", "1", "2", "a", "x", "nil", "'s'", "|", "'g': ", "1,2", ",3", "1 2", Big20, "1,"}),
+    Host("include", "{% include ", "%}", 1, {"'p'", "s", " ", " a:1", " i:2", " a:x", ",", " b", "x", ":", "1", "|", "'q'", "a", Big20, " a:", " a:arr[0]["}),
     Host("render", "{% render ", "%}", 1, {"'p'", "s", " ", ", a:1", ", i:2", ", a:x", ",", " with a as i", " for arr as i", " for (1..2) as a", " for x as a",
-                                           " with ", " as ", " for ", "x", "1", "a", "i", " a:1"}),
+                                           " with ", " as ", " for ", "x", "1", "a", "i", " a:1", Big20, ", a:", " for (1..", ") as a"}),
     Host("increment", "{% increment ", "%}{{a}}", 1, {"a", "c", " ", "b.k", "1", ",", "c c"}),
     Host("capture", "{% capture ", "%}x{% endcapture %}{{c}}", 1, {"c", " ", "b.k", "'c'", "=", "c c"}),
     Host("break", "{% for q in (1..2) %}{{q}}{% break ", "%}{% endfor %}", 27, {" ", "a", "1", ","}),
-    Host("ifchanged", "{% ifchanged ", "%}x{% endifchanged %}", 1, {" ", "a", "1", ","}) }
+    Host("ifchanged", "{% ifchanged ", "%}x{% endifchanged %}", 1, {" ", "a", "1", ","}),
+    \* whole templates: the pieces are elements (LiquidParse: element scan + block protocol)
+    Host("tmpl", "", "", 1, TmplVocab),
+    \* deeper, per construct (bound MaxTmpl)
+    Host("tmpl_if", "", "", 1, {"{% if a %}", "{% if nosuch %}", "{%- if a == 3 -%}", "{% elsif i %}", "{% else %}", "{% endif %}", "x", "{{a}}", " ", "{% else x %}"}),
+    Host("tmpl_for", "", "", 1, {"{% for i in (1..2) %}", "{% for i in arr limit:1 %}", "{% endfor %}", "{% else %}", "{% break %}", "{% continue %}", "{{i}}",
+                                 "{{- forloop.index -}}", " ", "x", "{% if i == 1 %}", "{% endif %}"}),
+    Host("tmpl_case", "", "", 1, {"{% case a %}", "{% when 3 %}", "{% when 1, 2 %}", "{% else %}", "{% endcase %}", "x", "y", " ", "{% else x %}"}),
+    Host("tmpl_cap", "", "", 1, {"{% capture c %}", "{% endcapture %}", "{{c}}", "{% assign c = 1 %}", "x", "{% ifchanged %}", "{% endifchanged %}", "{% increment c %}",
+                                 "{% cycle 'u', 'v' %}", "{% tablerow i in (1..2) cols:1 %}", "{% endtablerow %}", "{{i}}"}) }
+IsTmpl(n) == n \in {"tmpl", "tmpl_if", "tmpl_for", "tmpl_case", "tmpl_cap"}
 HostOf(n) == CHOOSE h \in HostTable : h.n = n
 
 TheData == [n \in {"a", "b", "i", "arr", "s"} |->
@@ -73,9 +91,14 @@ Complete(h, st) ==
     [] h.n = "break" -> <<[t |-> "for", var |-> "q", src |-> [src |-> "range", lo |-> Lit(IntV(1)), hi |-> Lit(IntV(2))],
                            lim |-> NoAttr, off |-> NoAttr, rev |-> FALSE, body |-> <<Out(V("q")), st>>, else |-> <<>>]>>
     [] h.n = "ifchanged" -> <<st @@ [body |-> <<Txt("x")>>]>>
+    [] IsTmpl(h.n) -> st
 
 \* verdict and program of the whole template pre \o inner \o post
 Parse(h, inner) ==
+  IF IsTmpl(h.n)
+  THEN LET r == A!ParseTemplate(inner) IN
+       IF r.ok THEN [ok |-> TRUE, filt |-> r.filt, st |-> r.prog] ELSE [ok |-> FALSE, unsup |-> r.unsup]
+  ELSE
   LET text == h.pre \o inner \o h.post
       endpos == Len(h.pre) + Len(inner) + 3       \* just after the closing delimiter (the first two characters of post)
   IN IF h.n = "out"
@@ -94,18 +117,18 @@ lexvars == <<phase, host, inner, n, mode>>
 allv == <<vars, lexvars>>
 
 Alphabet(h, m) == IF m = "generic" THEN Generic ELSE h.vocab
-Bound(m) == IF m = "generic" THEN MaxPieces ELSE MaxPhrase
+Bound(h, m) == IF m = "generic" THEN MaxPieces ELSE IF h \in {"tmpl_if", "tmpl_for", "tmpl_case", "tmpl_cap"} THEN MaxTmpl ELSE MaxPhrase
 
 LInit == /\ phase = "seed" /\ host \in Hosts /\ mode \in {"generic", "phrase"}
          /\ inner \in {""} \cup Alphabet(HostOf(host), mode) /\ n = (IF inner = "" THEN 0 ELSE 1)
-         /\ Bound(mode) >= 1
+         /\ Bound(host, mode) >= 1
          /\ prog = <<>> /\ parts = TheParts /\ data = TheData
          /\ SetInit(InitState(<<>>, TheData, 0))
 \* the remaining pieces are chosen in one step (shared by TLC's workers)
 RECURSIVE Words(_, _)
 Words(S, k) == IF k = 0 THEN {""} ELSE {""} \cup {p \o w : p \in S, w \in Words(S, k - 1)}
 Pick == /\ phase = "seed" /\ phase' = "done"
-        /\ \E w \in (IF n = 0 THEN {""} ELSE Words(Alphabet(HostOf(host), mode), Bound(mode) - 1)) : inner' = inner \o w
+        /\ \E w \in (IF n = 0 THEN {""} ELSE Words(Alphabet(HostOf(host), mode), Bound(host, mode) - 1)) : inner' = inner \o w
         /\ UNCHANGED <<vars, host, n, mode>>
 LNext == Pick
 LSpec == LInit /\ [][LNext]_allv
@@ -122,7 +145,8 @@ Record ==
   LET h == HostOf(host)
       p == Parse(h, inner)
       src == h.pre \o inner \o h.post
-  IN IF ~p.ok THEN [p |-> "LEX", kind |-> "parse", src |-> Codes(src), expect |-> "reject", nt |-> TRUE, host |-> host]
+  IN IF ~p.ok THEN [p |-> "LEX", kind |-> "parse", src |-> Codes(src), nt |-> TRUE, host |-> host,
+                    expect |-> IF "unsup" \in DOMAIN p /\ p.unsup THEN "unspecified" ELSE "reject"]
      ELSE IF ~Predictable(p) THEN [p |-> "LEX", kind |-> "parse", src |-> Codes(src), expect |-> "accept", nt |-> TRUE, host |-> host]
      ELSE [p |-> "LEX", kind |-> "source", src |-> Codes(src), data |-> data, parts |-> parts, nt |-> TRUE, host |-> host,
            policies |-> <<"eager">>, expect |-> Result(RunFrom(InitState(Complete(h, p.st), data, 0)))]
